@@ -130,7 +130,7 @@ Print Assumptions C06_total.
    the value before the pass, value a number), within qE; nothing else changes;
    the answer is the target's value; and the state is ready again, within qE. *)
 Theorem C06_cone_pass : forall w xs q E,
-  no_sum w -> fixed_point w xs -> row_bound w q -> (q <= 1)%Q -> (0 <= E)%Q ->
+  no_sum w -> fixed_point w xs -> row_bound_f w q -> (q <= 1)%Q -> (0 <= E)%Q ->
   forall t s v s',
   cone_ready w xs t s -> cone_within w xs t E s ->
   evaluate_pass w t (inc_iteration s) = Ok (v, s') ->
@@ -145,12 +145,18 @@ Theorem C06_cone_pass : forall w xs q E,
 Proof. exact cone_pass. Qed.
 Print Assumptions C06_cone_pass.
 
+(* row_bound_f: the row norm over the VARIABLES only (references to constant cells
+   belong to b of x = Ax + b); weaker than row_bound, which counts them too *)
+Theorem C06_row_bound_f : forall w q, row_bound w q -> row_bound_f w q.
+Proof. exact row_bound_weaken. Qed.
+Print Assumptions C06_row_bound_f.
+
 (* ---- end to end (Proofs/C06Conv.v) ---- *)
 
 (* geometric decay: after n = itn passes every formula cell of the cone is within
    q^n E0 of the fixed point, E0 bounding the cone's distance at the start *)
 Theorem C06_decay : forall w xs q E0,
-  no_sum w -> fixed_point w xs -> row_bound w q -> (0 <= q)%Q -> (q <= 1)%Q -> (0 <= E0)%Q ->
+  no_sum w -> fixed_point w xs -> row_bound_f w q -> (0 <= q)%Q -> (q <= 1)%Q -> (0 <= E0)%Q ->
   forall t it tolv st v st',
   cone_ready w xs t st -> cone_within w xs t E0 st ->
   evaluate_iterative w t it tolv st = Ok (v, st') ->
@@ -163,7 +169,7 @@ Print Assumptions C06_decay.
 
 (* all [iterations] passes used *)
 Theorem C06_exhausted : forall w xs q E0,
-  no_sum w -> fixed_point w xs -> row_bound w q -> (0 <= q)%Q -> (q <= 1)%Q -> (0 <= E0)%Q ->
+  no_sum w -> fixed_point w xs -> row_bound_f w q -> (0 <= q)%Q -> (q <= 1)%Q -> (0 <= E0)%Q ->
   forall t it tolv st v st',
   cone_ready w xs t st -> cone_within w xs t E0 st ->
   evaluate_iterative w t it tolv st = Ok (v, st') ->
@@ -179,7 +185,7 @@ Print Assumptions C06_exhausted.
    fixed point.  No assumption on how far the state was at the start, on
    previous-pass values, or on cells outside the cone. *)
 Theorem C06_converged : forall w xs q,
-  no_sum w -> fixed_point w xs -> row_bound w q -> (0 <= q)%Q -> (q < 1)%Q ->
+  no_sum w -> fixed_point w xs -> row_bound_f w q -> (0 <= q)%Q -> (q < 1)%Q ->
   forall t it tolv st v st',
   cone_ready w xs t st ->
   evaluate_iterative w t it tolv st = Ok (v, st') ->
